@@ -222,14 +222,34 @@ def coq_audit(prop, theorems):
     return ok, out, closed
 
 
-def grep_forbidden():
-    """Scans every .v file of the development (comments stripped) for forbidden vernacular."""
+def coq_closure(prop):
+    """.v files (absolute paths) that Properties/<prop>.v transitively requires inside NS,
+    plus every extraction file (they feed the model executable)."""
+    seen = []
+    todo = [os.path.join(COQ, "Properties", prop + ".v")]
+    ex = os.path.join(COQ, "extract")
+    todo += [os.path.join(ex, f) for f in sorted(os.listdir(ex)) if f.endswith(".v")]
+    while todo:
+        p = todo.pop()
+        if p in seen or not os.path.exists(p):
+            continue
+        seen.append(p)
+        txt = strip_coq_comments(open(p, encoding="utf-8").read())
+        for name in re.findall(r"\bNS(?:\.[A-Za-z_]\w*)+", txt):
+            todo.append(os.path.join(COQ, *name.split(".")[1:]) + ".v")
+    return seen
+
+
+def grep_forbidden(prop=None):
+    """Scans the .v files the property depends on (all of them when prop is None), comments
+    stripped, for forbidden vernacular."""
     hits = []
-    for root, _, files in os.walk(COQ):
-        for fn in files:
-            if not fn.endswith(".v"):
-                continue
-            p = os.path.join(root, fn)
+    if prop is not None:
+        paths = coq_closure(prop)
+    else:
+        paths = [os.path.join(r, fn) for r, _, fs in os.walk(COQ) for fn in fs if fn.endswith(".v")]
+    for p in sorted(paths):
+        if True:
             txt = open(p, encoding="utf-8").read()
             txt = strip_coq_comments(txt)
             for i, line in enumerate(txt.splitlines(), 1):
@@ -296,7 +316,10 @@ def build_nsmodel():
     Layout under coq/extract/: Extract*.v each write one Model*.ml(i) (via
     `Extraction "extract/ModelX.ml" ...`); mode_*.ml are hand-written driver fragments, each
     opening the Model module it needs and registering itself with `Modes.register`;
-    modes.ml (registry) is compiled before them and main.ml last."""
+    modes.ml (registry) is compiled before them and main.ml last.  Every unit is compiled
+    separately and only the units that compile are linked, so one property's unfinished
+    driver cannot take the other properties' model executable down with it (its own mode
+    is then simply missing and its check reports that)."""
     with Lock("coq"):
         d = os.path.join(BUILD, "nsmodel")
         os.makedirs(d, exist_ok=True)
@@ -304,10 +327,12 @@ def build_nsmodel():
         if write_coqproject():
             sh("coq_makefile -f _CoqProject -o Makefile", cwd=COQ, check=True)
         vos = ["extract/" + f[:-2] + ".vo" for f in sorted(os.listdir(ex)) if f.endswith(".v")]
-        rc, out = sh(["make", "-j16"] + vos, cwd=COQ, timeout=1500)
+        rc, out = sh(["make", "-k", "-j16"] + vos, cwd=COQ, timeout=1500)
+        report = []
         if rc != 0:
-            return False, out
-        models = sorted(f[:-3] for f in os.listdir(ex) if f.startswith("Model") and f.endswith(".ml"))
+            report.append("extraction: some Extract*.v failed:\n" + out[-1500:])
+        models = sorted(f[:-3] for f in os.listdir(ex) if f.startswith("Model") and f.endswith(".ml")
+                        and os.path.exists(os.path.join(ex, f + "i")))
         modes = sorted(f for f in os.listdir(ex) if f.startswith("mode_") and f.endswith(".ml"))
         order = []
         for m in models:
@@ -325,12 +350,22 @@ def build_nsmodel():
                 os.remove(os.path.join(d, f))
         for f in order:
             shutil.copy(os.path.join(ex, f), os.path.join(d, f))
-        cmd = "ocamlfind ocamlopt -O2 -w -a -package str -linkpkg %s -o nsmodel" % " ".join(order)
-        rc, out = sh(cmd + " 2>&1 || " + cmd.replace(" -O2", ""), cwd=d, timeout=900)
+        linked = []
+        for f in order:
+            rc, out = sh("ocamlfind ocamlopt -O2 -w -a -package str -c %s 2>&1 || ocamlfind ocamlopt -w -a -package str -c %s" % (f, f),
+                         cwd=d, timeout=900)
+            if rc != 0:
+                report.append("nsmodel: %s does not compile (left out):\n%s" % (f, out[-1500:]))
+                if f in ("modes.ml", "main.ml"):
+                    return False, "\n".join(report)
+                continue
+            if f.endswith(".ml"):
+                linked.append(f[:-3] + ".cmx")
+        rc, out = sh("ocamlfind ocamlopt -w -a -package str -linkpkg %s -o nsmodel" % " ".join(linked), cwd=d, timeout=900)
         if rc != 0:
-            return False, out
+            return False, "\n".join(report) + out
         open(sp, "w").write(stamp.hexdigest())
-        return True, out
+        return True, "\n".join(report) + out
 
 
 # ----------------------------------------------------------------------------
